@@ -78,6 +78,7 @@ def make_config(seed, tier="quick", variant=None):
     # buggify: a transport close that takes a while (wait_closed() completes late)
     # non-ASCII values (separate stream): a retransmission has to deliver the same bytes
     cfg["charset"] = random.Random(seed ^ 0xC07C5).choice(["ascii", "ascii", "ascii", "latin1", "bmp", "astral", "nfd"])
+    cfg["p_hook_raise"] = random.Random(seed ^ 0xC07E7).choice([0.0, 0.0, 0.0, 0.1, 0.3])  # on_message() raising
     cfg["p_slow_close"] = r.choice([0.0, 0.0, 0.0, 0.5])
     cfg["slow_close_s"] = r.choice([0.3, 1.3, 2.6])
     cfg["settle_s"] = 6.5 * hb + 8.0
